@@ -3,6 +3,7 @@ package main
 import (
 	"bytes"
 	"fmt"
+	"io"
 	origfmt "fmt"
 	"strings"
 	"unicode/utf8"
@@ -138,9 +139,14 @@ func writerOp(w redact.SafeWriter, o bop) bool {
 			w.SafeInt(redact.SafeInt(v))
 		}
 	case "us":
-		if o.n == 1 {
+		switch o.n {
+		case 1:
 			w.UnsafeBytes(cp(o.p))
-		} else {
+		case 2: // the plain io.Writer side
+			w.(io.Writer).Write(cp(o.p))
+		case 3: // the io.StringWriter fast path
+			io.WriteString(w.(io.Writer), string(o.p))
+		default:
 			w.UnsafeString(string(o.p))
 		}
 	case "ub":
@@ -290,6 +296,9 @@ func opAlphabet(kind string, small bool) []bop {
 		for _, p := range pl {
 			a = append(a, bop{tag: "ss", p: p}, bop{tag: "us", p: p})
 		}
+		// the equivalent entry points of the same calls: SafeBytes/UnsafeBytes, io.Writer, io.StringWriter
+		a = append(a, bop{tag: "ss", p: []byte("a‹"), n: 1}, bop{tag: "us", p: []byte("b\n›"), n: 1},
+			bop{tag: "us", p: []byte("w‹"), n: 2}, bop{tag: "us", p: []byte("s\n"), n: 3})
 		for _, v := range bv {
 			a = append(a, bop{tag: "sb", n: v}, bop{tag: "ub", n: v})
 		}
@@ -649,6 +658,13 @@ func randOps(r *Rng, alpha []bop, maxLen int) []bop {
 		ops[i] = alpha[r.Intn(len(alpha))]
 		if r.Chance(15) && (ops[i].tag == "w" || ops[i].tag == "ss" || ops[i].tag == "us") {
 			ops[i].p = randBytes(r, alphaM, 12)
+		}
+		if ops[i].tag == "us" || ops[i].tag == "ss" {
+			// which of the equivalent entry points is used (string / bytes / io.Writer / io.StringWriter)
+			ops[i].n = r.Intn(4)
+			if ops[i].tag == "ss" {
+				ops[i].n %= 2
+			}
 		}
 	}
 	return ops
